@@ -220,12 +220,13 @@ PROPS = {
         ],
     },
     'C09': {
-        'contract_modules': ['c09_master'],
+        'contract_modules': ['c09_master', 'c11_loader'],
         'replay': 'c09.py',
         'extra': [('bounded:master-histories', bounded_replay('c09.py', 'C09', 'Master/Loader histories vs /placement', 250, 12000))],
         'functions': ['treadmill.scheduler.master:Master._placement_data', 'treadmill.scheduler.master:Master.init_schedule',
                       'treadmill.scheduler.master:Master._unschedule_evicted', 'treadmill.scheduler.master:Master.reschedule',
-                      'treadmill.scheduler.master:Master.remove_app'],
+                      'treadmill.scheduler.master:Master.remove_app',
+                      'treadmill.scheduler.loader:Loader.restore_placement'],
         'assumptions': [
             'GHOST STORE: /placement behind the storage backend is the writable ZooKeeper store of engine_fs (zk_exists / '
             'zk_content per path); Backend.put / delete / ensure_exists / list / get_default / exists are dependency '
@@ -259,10 +260,10 @@ PROPS = {
         ],
     },
     'C10': {
-        'contract_modules': ['c09_master'],
+        'contract_modules': ['c09_master', 'c11_loader'],
         'functions': ['treadmill.scheduler.master:Master.init_schedule',
                       'treadmill.scheduler.master:Master._unschedule_evicted', 'treadmill.scheduler.master:Master.reschedule',
-                      'treadmill.scheduler.master:Master.remove_app'],
+                      'treadmill.scheduler.master:Master.remove_app', 'treadmill.scheduler.loader:Loader.restore_placement'],
         'replay': 'c09.py',
         'extra': [('bounded:master-crash-histories', bounded_replay('c09.py', 'C10', 'Master/Loader histories with crash points', 250, 12000))],
         'assumptions': [
@@ -280,6 +281,36 @@ PROPS = {
             'the stored tree) is decided by the bounded stand-in only: replay/c09.py cuts every publication at a random '
             'write, checks the stored tree for duplicates, starts a new master on it and runs its integrity check',
             'the ghost-store, path and cycle-summary assumptions of C09 apply (same contract module)',
+        ],
+    },
+    'C11': {
+        'contract_modules': ['c11_loader'],
+        'functions': ['treadmill.scheduler.loader:Loader.restore_placement', S + 'Server.restore', S + 'Server.put',
+                      S + 'Server.remove_all', S + 'Server.check_app_lifetime', S + 'Node.increment_affinity',
+                      S + 'Node.decrement_affinity', S + 'Bucket.adjust_capacity_up', S + 'Bucket.adjust_capacity_down'],
+        'replay': 'c09.py',
+        'extra': [('bounded:fail-over-histories', bounded_replay('c09.py', 'C11', 'Loader.load_model on stored states of random histories', 250, 12000))],
+        'assumptions': [
+            'decided per server (Loader.restore_placement, which Loader.restore_placements calls for every server of the '
+            'model and Loader.reload_server calls at run time): (1) nothing is placed on the server that is not recorded '
+            'under it; (2) an instance recorded under a server whose presence node is not newer than the entry (present, not '
+            'restarted since) is put back by Server.restore with the RECORDED expiry - and Server.restore (proved contract of '
+            'scheduler_core, re-verified here) succeeds exactly when the instance still fits the server statically '
+            '(fits_static: partition label, traits, affinity room, capacity in every dimension - "still offering the capacity, '
+            'partition and traits of what is recorded on it") and leaves the lease check out; (3) the recorded identity is '
+            'forced (restore_identity); (4) a recorded instance that is not put back has its entry deleted, nothing is '
+            'created, no surviving entry is rewritten, entries of other servers are untouched',
+            'NOT machine-checked: the composition over servers in Loader.restore_placements (the loop that drops an instance '
+            'restored under two servers) and the load sequence of Loader.load_model (servers, allocations, apps, identity '
+            'groups before the restore); that identity groups are configured before the restore (force_set_identity asserts '
+            'a group reference: precondition "an identity is recorded only for an instance of a group"); "fits at its turn" - '
+            'capacity is consumed in listing order, so an instance can fail to fit because of instances restored before it',
+            'store: the ghost store and Backend dependency contracts of C09 (c09_master), plus get_with_metadata (payload '
+            'decoded to expires - 0 if absent - and identity, creation time zk_ctime read only) and "a missing node has no '
+            'children"; Loader.remove_app is an assumed summary (the instance leaves the cell, nobody else changes)',
+            'BOUNDED stand-in (labelled bounded): replay/c09.py restarts a new master on the stored state of random histories '
+            '(also after injected crashes) and compares the model right after load_model with the entries recorded under '
+            'healthy servers (server, identity, expiry) and checks that nothing unrecorded is placed',
         ],
     },
     'C12': {
